@@ -140,7 +140,10 @@ Section Machine.
   (* the adaptive integrator's accepted intermediate step times between the
      current stepper time and the target (arbitrary: chosen by scipy) *)
   Variable steps : T -> T -> list T.
-  Variable teqb : T -> T -> bool.  (* t == stepper.t *)
+  (* the coded test `abs(t - tc) <= 4 * eps * max(abs(t), abs(tc))` (eps = 2^-52)
+     of _update_to_integrate: t is the time the stepper is already at, up to
+     rounding *)
+  Variable near : T -> T -> bool.
   Variable skip : bool.            (* v_int_skip_same of the code version *)
 
   Definition act (two : bool) (u : Op) (x : St) : St :=
@@ -196,7 +199,7 @@ Section Machine.
         let d := tsub t (s_t s) in
         upd_direct s t (actR (U d) (actL (U d) (s_pt s))) (Ev_expm d true)
     | R_integrate =>
-        if skip && teqb t (s_st s) then s else
+        if skip && near t (s_st s) then s else
         match s_eq s with
         | None => s
         | Some q =>
@@ -266,8 +269,7 @@ Arguments Ev_diag {T}. Arguments Ev_expm {T}. Arguments Ev_int {T}.
    NOT proved about those routines. *)
 Record propagator_laws (T Op St : Type) (tzero : T) (tadd tsub : T -> T -> T)
        (oid : Op) (ocomp : Op -> Op -> Op) (U : T -> Op) (P : T -> T -> Op)
-       (actL actR : Op -> St -> St) (teqb : T -> T -> bool) : Prop := mk_laws {
-  pl_teqb : forall a b, teqb a b = true -> a = b;
+       (actL actR : Op -> St -> St) : Prop := mk_laws {
   pl_tsub_diag : forall t, tsub t t = tzero;
   pl_tsub_chain : forall a b c, tadd (tsub a b) (tsub b c) = tsub a c;
   pl_U_zero : U tzero = oid;
@@ -280,6 +282,14 @@ Record propagator_laws (T Op St : Type) (tzero : T) (tadd tsub : T -> T -> T)
   pl_actR_comp : forall u w x, actR (ocomp u w) x = actR u (actR w x);
   pl_act_comm : forall u w x, actL u (actR w x) = actR w (actL u x)
 }.
+
+(* The requested times are resolved by the skip test: among t0 and the
+   requested times, two that the coded test calls "the same up to rounding" are
+   the same.  (Times closer than 4 ulp are deliberately not distinguished by the
+   repaired code; for them the clock is only right up to 4 ulp.)  Only matters
+   for a code version that skips. *)
+Definition resolved (T : Type) (near : T -> T -> bool) (skip : bool) (l : list T) : Prop :=
+  skip = true -> forall a b, In a l -> In b l -> near a b = true -> a = b.
 
 (* ---------------------------------------------------------------------- *)
 (* Integer instance: times are integers (dyadic times scaled by a power of
@@ -299,13 +309,15 @@ Module ZI.
   (* a deterministic stand-in for the adaptive step selection *)
   Definition steps (a b : Z) : list Z := if a =? b then [a] else [a; (a + b) / 2].
   Definition p0 : St := (0, 0).
-  Definition teqb (a b : Z) : bool := a =? b.
+  (* |a - b| <= 4 * 2^-52 * max(|a|, |b|), exactly, on scaled dyadic times
+     (the test is scale invariant) *)
+  Definition near (a b : Z) : bool := 2 ^ 50 * Z.abs (a - b) <=? Z.max (Z.abs a) (Z.abs b).
 
   Definition zst := st Z St.
-  Definition zupdate := update_to Z Op St tsub U P actL actR steps teqb.
-  Definition zrun := run Z Op St tsub U P actL actR steps teqb.
-  Definition zclocks := clocks Z Op St tsub U P actL actR steps teqb.
-  Definition zat_times := at_times Z Op St tsub U P actL actR steps teqb.
+  Definition zupdate := update_to Z Op St tsub U P actL actR steps near.
+  Definition zrun := run Z Op St tsub U P actL actR steps near.
+  Definition zclocks := clocks Z Op St tsub U P actL actR steps near.
+  Definition zat_times := at_times Z Op St tsub U P actL actR steps near.
   Definition zspec := spec_state Z Op St tsub U P actL actR.
   Definition zstart (v : version) (c : config) (t0 : Z) := start Z St v c t0 p0.
   Definition zget_t := get_t Z St.
